@@ -61,10 +61,55 @@ def gen_cases(rng, tier):
                 ops.append("Q:" + rng.choice(METHODS))
         cases.append(["d%d" % i, "c11", role, "cid%d" % i, "sip:me@example.org", "lt%d" % i, rng.choice(URIS), "pt%d" % i,
                       rng.choice(CONTACTS), " ".join(rr), str(icseq), str(c0), ",".join(ops)])
+    # the responses the invite usage / acceptor generates for the dialog-creating INVITE on every path (accept, reject, CANCEL,
+    # BYE on the early dialog, reliable provisionals): each one above 100 must carry the dialog's local tag
+    import importlib
+    P12 = importlib.import_module("props.c12")
+    src = [c for c in P12.gen_cases(rng.__class__(rng.randrange(1 << 30)), "quick") if c[2] == "uas" and c[6] in ("race", "rel1xx")]
+    if tier == "quick":
+        src = [c for k, c in enumerate(src) if k % 4 == 0 or ":bye" in c[4] or ":prov" in c[4]][:80]
+    for k, c in enumerate(src):
+        cases.append(["ua%d" % k, "c11", "ua", c[2], c[3], c[4], c[5]])
     return cases
 
 
+_TRIVIAL = None
+
+
+def model_case(case, impl):
+    if case[2] == "ua":
+        return [case[0], "c11", "S", "cid", "sip:me@example.org", "lt", URIS[0], "pt", CONTACTS[0], "", "1", "1", ""]
+    return case
+
+
+def accepts(case, impl, model):
+    if case[2] == "ua":
+        return True
+    return impl == model
+
+
+def _ua_oracle(case, impl):
+    if "PANIC" in impl:
+        return ["panic: " + impl[-300:]]
+    tags = []
+    for m in re.finditer(r"W:SIP/2\.0_(\d+)_[^|]*\|cseq=\d+_INVITE\|branch=z9hG4bKinvite1\|totag=([^|]*)\|", impl):
+        if int(m.group(1)) > 100:
+            tags.append((int(m.group(1)), m.group(2)))
+    for code, t in tags:
+        if t in ("-", ""):
+            return ["the %d response to the dialog-creating INVITE carries no To-tag (script %s)" % (code, case[5])]
+    if len(set(t for _, t in tags)) > 1:
+        return ["responses to the dialog-creating INVITE carry different To-tags: %r" % sorted(set(tags))]
+    return []
+
+
 def oracle(case, impl):
+    if case[2] == "ua":
+        return _ua_oracle(case, impl)
+    return _oracle_dialog(case, impl)
+
+
+def _oracle_dialog(case, impl):
     """RFC 3261 12.1.1 / 12.1.2 / 12.2.1.1 reference dialog computed here from the INVITE/2xx pair"""
     if "PANIC" in impl:
         return ["panic: " + impl[:300]]
@@ -122,6 +167,8 @@ def oracle(case, impl):
 
 
 def nontrivial(case, impl):
+    if case[2] == "ua":
+        return case[5] if "W:SIP/2.0_" in impl else None
     ops = [o for o in case[12].split(",") if o]
     if len(ops) >= 2 or any(o.startswith("R:") and int(o[2:]) > 100 for o in ops):
         return "\t".join(case[2:])
@@ -132,5 +179,8 @@ def distribution(cases, impl):
     import collections
     h = collections.Counter()
     for c in cases:
+        if c[2] == "ua":
+            h["user-agent scenario"] += 1
+            continue
         h["role=%s rr=%d" % (c[2], len([r for r in c[9].split(" ") if r]))] += 1
     return dict(h)
